@@ -99,6 +99,22 @@ func vNoMerge(f func())       { f() }
 // vSkipTables: inside f the executor does not run (*LunarYear).compute, so NewLunarYear can take a symbolic year;
 // natively f simply runs (the table is computed, which does not affect the fields the harness looks at).
 func vSkipTables(f func()) { f() }
+
+// vApproxFloats: inside f the executor over-approximates inexact float64 operations with a sound error bound
+// (engine/fapx.go); natively f simply runs.
+func vApproxFloats(f func()) { f() }
+
+// vApxWithin: |x - num/den| <= tol * 2^-40 (the executor decides it from the error bound it carries for x)
+func vApxWithin(x float64, num, den, tol int) bool {
+	d := x - float64(num)/float64(den)
+	if d < 0 {
+		d = -d
+	}
+	return d <= float64(tol)/1099511627776.0
+}
+
+// vApxFloat: for the executor an ARBITRARY float64 within tol * 2^-40 of num/den; natively the nominal value
+func vApxFloat(num, den, tol int) float64 { return float64(num) / float64(den) }
 func vFork(c bool) bool       { return c }
 func vConcretize(x int) int   { return x }
 func vNative() bool           { return true }
